@@ -981,3 +981,65 @@ func ruleLexRegexpFlags(c *Ctx, r *R) {
 		r.undecided("unresolved:flags-store", "-", "UNRESOLVED: no store to ast.RegExpLiteral.Flags in package parser")
 	}
 }
+
+// ---- PARSE-key -----------------------------------------------------------------------------------------------------------
+
+func init() {
+	register(&Rule{ID: "PARSE-key", Props: []string{"C04"}, Min: 1,
+		Doc: "P (path-based): the parser function that reads an object literal's PropertyName returns the key it derived from the token, or has reported a syntax error: no path reaches its return with the key still the empty constant it was initialised with and without a call of the parser's error reporters. Otherwise any token - a punctuator, an unterminated string, end of input - is swallowed as a property named \"\": `({+: 1})` parses",
+		Run: ruleParseKey})
+}
+
+func ruleParseKey(c *Ctx, r *R) {
+	var fn *ssa.Function
+	for _, f := range c.AllSrcFuncs("parser") {
+		if f.Name() == "parseObjectPropertyKey" {
+			fn = f
+		}
+	}
+	if fn == nil {
+		r.undecided("unresolved:parseObjectPropertyKey", "-", "UNRESOLVED: parser.(*parser).parseObjectPropertyKey")
+		return
+	}
+	isErr := func(i ssa.Instruction) bool {
+		call, ok := i.(*ssa.Call)
+		if !ok || call.Call.StaticCallee() == nil {
+			return false
+		}
+		switch call.Call.StaticCallee().Name() {
+		case "error", "errorUnexpected", "errorUnexpectedToken", "expect":
+			return true
+		}
+		return false
+	}
+	n := 0
+	bad := ""
+	for _, b := range fn.Blocks {
+		ret, ok := b.Instrs[len(b.Instrs)-1].(*ssa.Return)
+		if !ok || len(ret.Results) < 2 {
+			continue
+		}
+		phi, ok := ret.Results[1].(*ssa.Phi)
+		if !ok {
+			continue
+		}
+		for i, e := range phi.Edges {
+			k, ok := e.(*ssa.Const)
+			if !ok || k.Value == nil || k.Value.ExactString() != `""` {
+				continue
+			}
+			n++
+			pred := phi.Block().Preds[i]
+			last := pred.Instrs[len(pred.Instrs)-1]
+			if reachableWithout(fn, last, isErr) {
+				bad = c.Pos(instrPos(last))
+			}
+		}
+	}
+	if n == 0 {
+		r.undecided("unresolved:key-phi", c.Pos(fn.Pos()), "UNRESOLVED: the returned key of parseObjectPropertyKey is not a merge that includes the empty constant")
+		return
+	}
+	r.check(bad == "", "key-or-error", c.Pos(fn.Pos()), "every path that leaves the key empty reports an error",
+		"parseObjectPropertyKey can return an empty key without reporting an error (path through "+bad+"): a punctuator or an illegal token is swallowed as a property named \"\" - `({+: 1})` and `({/: 1})` parse")
+}
